@@ -45,6 +45,14 @@ type builderAPI struct {
 	Call func(signer crypto.Signer, certs []*x509.Certificate) ([]sigObs, error, error) // obs, refusal, harness-side error
 }
 
+// emitted marks an error that arose after the builder had returned a structure.
+func emitted(err error) error {
+	if err == nil {
+		return nil
+	}
+	return &emittedErr{err}
+}
+
 func libraryAPIs() []builderAPI {
 	cms := func(attrs bool) func(crypto.Signer, []*x509.Certificate) ([]sigObs, error, error) {
 		return func(signer crypto.Signer, certs []*x509.Certificate) ([]sigObs, error, error) {
@@ -63,10 +71,10 @@ func libraryAPIs() []builderAPI {
 			}
 			der, err := psd.Marshal()
 			if err != nil {
-				return nil, nil, err
+				return nil, nil, emitted(err)
 			}
 			obs, err := cmsObs("cms", der, nil)
-			return obs, nil, err
+			return obs, nil, emitted(err)
 		}
 	}
 	out := []builderAPI{
@@ -101,10 +109,10 @@ func xmlAPIs(suffix string, xopts xmldsig.SignOptions) []builderAPI {
 			}
 			blob, err := doc.WriteToBytes()
 			if err != nil {
-				return nil, nil, err
+				return nil, nil, emitted(err)
 			}
 			obs, err := xmlObs("xmldsig", blob, nil)
-			return obs, nil, err
+			return obs, nil, emitted(err)
 		}},
 		{"xmldsig-sign-enveloping" + suffix, func(signer crypto.Signer, certs []*x509.Certificate) ([]sigObs, error, error) {
 			obj := etree.NewElement("Object")
@@ -118,10 +126,10 @@ func xmlAPIs(suffix string, xopts xmldsig.SignOptions) []builderAPI {
 			doc.SetRoot(sig)
 			blob, err := doc.WriteToBytes()
 			if err != nil {
-				return nil, nil, err
+				return nil, nil, emitted(err)
 			}
 			obs, err := xmlObs("xmldsig", blob, nil)
-			return obs, nil, err
+			return obs, nil, emitted(err)
 		}},
 	}
 }
